@@ -225,7 +225,12 @@ CLAIMS = {
              "unlinked, never traversed; nothing above or beside the named entry is touched); the names '.' and '..' are refused "
              "before any call; success is reported only after the kernel itself said the named entry is gone (an unlinkat(parent,name) "
              "answered success or ENOENT, or the directory open answered ENOENT) — C13_success_witness, hence every racing caller that "
-             "reports success has seen the entry absent; trailing slash = resolve parent, close, InvalidArgument. Tie and oracle: "
+             "reports success has seen the entry absent; trailing slash = resolve parent, close, InvalidArgument; C13_exact (refinement "
+             "against a mutable tree, Proofs/RmAll.lean): run against RFS (directory entries, kinds, directory streams; the kernel's "
+             "answers to unlinkat, rmdir, the O_DIRECTORY|O_NOFOLLOW open, dirOpen/dirNext; state threaded by exec) the model of "
+             "remove_all succeeds, the named entry is gone, every directory below it is empty, the parent lost exactly that entry, "
+             "no other directory and no kind changed — for every finite tree and any fuel above rank+3; an absent entry is success "
+             "with nothing changed (C13_absent). Tie and oracle: "
              "remove_all on generated trees (deep/wide subtrees, links to siblings/parents/outside, hard links) and path spellings on "
              "both backends, replayed through the model; exact-effect oracle over a snapshot of the root *and its surroundings*: "
              "exactly the named subtree disappears, link targets inside and outside untouched, a failure removes nothing outside the "
